@@ -432,13 +432,32 @@ PROPS = {
 
 
 # Multi-threaded stage (real threads, real clock, optional ThreadSanitizer build): which properties run it.
+# Real-thread stage: groups of mtstress runs (kind, how many, label, arguments). Profiles: 0 mixed
+# buffers; 1 growth (tiny TX ring growing to 1 MiB under small writes: the ring is copied while the
+# writer pushes from another thread); 2 tiny fixed ring with the lost-wake-up snapshot rule; 3 tiny
+# fixed ring, writers / readers polling from their own OS threads with fresh wakers (wake-up oracle).
+_MIXED_Q = ["--threads", "8", "--pairs", "3", "--conns", "4", "--bytes", "100000", "--rounds", "1"]
+_GROW = ["--threads", "16", "--pairs", "8", "--conns", "6", "--bytes", "300000", "--rounds", "3", "--profile", "1"]
+_TINY = ["--threads", "16", "--pairs", "8", "--conns", "6", "--bytes", "40000", "--rounds", "2", "--profile", "2"]
+_SPIN = ["--threads", "8", "--pairs", "4", "--conns", "2", "--bytes", "20000", "--rounds", "1", "--profile", "3"]
+_GROW_TSAN = ["--threads", "8", "--pairs", "4", "--conns", "4", "--bytes", "200000", "--rounds", "1", "--profile", "1"]
 MT_STAGE = {
-    "C01": dict(quick=dict(plain=1, tsan=0, args=["--threads", "8", "--pairs", "3", "--conns", "4", "--bytes", "100000", "--rounds", "1"]),
-                thorough=dict(plain=8, tsan=4, args=["--threads", "8", "--pairs", "4", "--conns", "6", "--bytes", "400000", "--rounds", "3"])),
-    "C02": dict(quick=dict(plain=1, tsan=0, args=["--threads", "8", "--pairs", "3", "--conns", "4", "--bytes", "100000", "--rounds", "1"]),
-                thorough=dict(plain=8, tsan=2, args=["--threads", "16", "--pairs", "6", "--conns", "6", "--bytes", "200000", "--rounds", "3"])),
-    "C19": dict(quick=dict(plain=1, tsan=0, args=["--threads", "8", "--pairs", "3", "--conns", "4", "--bytes", "100000", "--rounds", "1"]),
-                thorough=dict(plain=6, tsan=2, args=["--threads", "4", "--pairs", "4", "--conns", "6", "--bytes", "400000", "--rounds", "2"])),
+    "C01": dict(quick=[("plain", 1, "mixed", _MIXED_Q), ("plain", 6, "growth", _GROW)],
+                thorough=[("plain", 8, "mixed", ["--threads", "8", "--pairs", "4", "--conns", "6", "--bytes", "400000", "--rounds", "3"]),
+                          ("plain", 40, "growth", _GROW),
+                          ("tsan", 4, "mixed", ["--threads", "8", "--pairs", "4", "--conns", "6", "--bytes", "400000", "--rounds", "3"]),
+                          ("tsan", 4, "growth", _GROW_TSAN)]),
+    "C02": dict(quick=[("plain", 1, "mixed", _MIXED_Q), ("plain", 1, "tiny", _TINY)],
+                thorough=[("plain", 8, "mixed", ["--threads", "16", "--pairs", "6", "--conns", "6", "--bytes", "200000", "--rounds", "3"]),
+                          ("plain", 6, "tiny", _TINY),
+                          ("tsan", 2, "mixed", ["--threads", "16", "--pairs", "6", "--conns", "6", "--bytes", "200000", "--rounds", "3"])]),
+    "C19": dict(quick=[("plain", 1, "mixed", _MIXED_Q), ("plain", 3, "growth", _GROW), ("plain", 3, "spin", _SPIN)],
+                thorough=[("plain", 6, "mixed", ["--threads", "4", "--pairs", "4", "--conns", "6", "--bytes", "400000", "--rounds", "2"]),
+                          ("plain", 20, "growth", _GROW),
+                          ("plain", 6, "tiny", _TINY),
+                          ("plain", 16, "spin", _SPIN),
+                          ("tsan", 2, "mixed", ["--threads", "4", "--pairs", "4", "--conns", "6", "--bytes", "400000", "--rounds", "2"]),
+                          ("tsan", 2, "growth", _GROW_TSAN)]),
 }
 # Miri stage (thorough tier): small cases interpreted by Miri, one process per (kind, seed, size).
 MIRI_STAGE = {
@@ -502,25 +521,29 @@ def build_tsan():
 
 def run_mt_stage(pid, tier, seed):
     """Real-thread stage. Returns (violations, evidence dict)."""
-    cfg = MT_STAGE[pid][tier]
+    import re
+    groups = MT_STAGE[pid][tier]
     runs = []
     viol = []
-    plan = [("plain", MTSTRESS, i) for i in range(cfg["plain"])]
     tsan_ok = None
-    if cfg["tsan"] > 0:
+    if any(g[0] == "tsan" for g in groups):
         tsan_ok = build_tsan()
-        if tsan_ok:
-            plan += [("tsan", MTSTRESS_TSAN, 1000 + i) for i in range(cfg["tsan"])]
-    for kind, exe, i in plan:
+    plan = []
+    for gi, (kind, n, label, args) in enumerate(groups):
+        if kind == "tsan" and not tsan_ok:
+            continue
+        exe = MTSTRESS_TSAN if kind == "tsan" else MTSTRESS
+        plan += [(kind, exe, label, args, gi * 1000 + i) for i in range(n)]
+    for kind, exe, label, args, i in plan:
         s = seed * 100003 + i
         env = dict(ENV)
         if kind == "tsan":
             env["TSAN_OPTIONS"] = "halt_on_error=0 report_signal_unsafe=0 exitcode=66"
-        cmd = [exe, "--seed", str(s)] + cfg["args"]
+        cmd = [exe, "--seed", str(s)] + args
         try:
             p = subprocess.run(cmd, cwd=ROOT, env=env, timeout=3600, stdout=subprocess.PIPE, stderr=subprocess.PIPE, text=True)
         except subprocess.TimeoutExpired:
-            runs.append(dict(kind=kind, seed=s, verdict="inconclusive: wall-clock watchdog"))
+            runs.append(dict(kind=kind, label=label, seed=s, verdict="inconclusive: wall-clock watchdog"))
             continue
         line = (p.stdout.strip().splitlines() or ["{}"])[-1]
         try:
@@ -529,6 +552,7 @@ def run_mt_stage(pid, tier, seed):
             r = {"verdict": "broken", "problem": (p.stderr or "")[-500:]}
         races = p.stderr.count("WARNING: ThreadSanitizer")
         r["kind"] = kind
+        r["label"] = label
         r["tsan_reports"] = races
         runs.append(r)
         bad = r.get("verdict") not in ("held",) or races > 0 or p.returncode not in (0,)
@@ -536,32 +560,40 @@ def run_mt_stage(pid, tier, seed):
             continue
         if bad:
             os.makedirs(REPLAYS, exist_ok=True)
-            path = os.path.join(REPLAYS, f"{pid}-mtstress-{kind}-{s}.json")
+            path = os.path.join(REPLAYS, f"{pid}-mtstress-{kind}-{label}-{s}.json")
             with open(path, "w") as f:
                 json.dump({"property": pid, "command": " ".join(cmd), "result": r,
                            "stderr_tail": (p.stderr or "")[-20000:]}, f, indent=1)
             rule = "data-race" if races > 0 else "mt-" + str(r.get("verdict"))
             sig = "ThreadSanitizer report" if races > 0 else str(r.get("problem") or r.get("verdict"))
             # strip run-specific numbers from the signature
-            import re
             sig = re.sub(r"[0-9]+", "N", sig)[:160]
             viol.append({"property": pid, "rule": rule, "signature": sig, "detail": json.dumps(r)[:400], "replay": path, "count": 1})
+
+    def tot(key):
+        return sum(int(r.get(key, 0) or 0) for r in runs)
     ev = {
         "runs": len(runs),
         "plain_runs": sum(1 for r in runs if r.get("kind") == "plain"),
         "tsan_runs": sum(1 for r in runs if r.get("kind") == "tsan"),
+        "runs_by_workload": {lab: sum(1 for r in runs if r.get("label") == lab) for lab in sorted({str(r.get("label")) for r in runs})},
         "tsan_build": {None: "not requested", True: "ok", False: "unavailable"}[tsan_ok],
-        "tsan_reports": sum(r.get("tsan_reports", 0) for r in runs),
-        "bytes_read_and_checked": sum(int(r.get("bytes_read_and_checked", 0)) for r in runs),
-        "connection_sides_completed": sum(int(r.get("connection_sides_completed", 0)) for r in runs),
-        "reads": sum(int(r.get("reads", 0)) for r in runs),
-        "writes": sum(int(r.get("writes", 0)) for r in runs),
-        "connection_task_polls": sum(int(r.get("connection_task_polls", 0)) for r in runs),
+        "tsan_reports": tot("tsan_reports"),
+        "bytes_read_and_checked": tot("bytes_read_and_checked"),
+        "connection_sides_completed": tot("connection_sides_completed"),
+        "reads": tot("reads"),
+        "writes": tot("writes"),
+        "connection_task_polls": tot("connection_task_polls"),
+        "tx_snapshots_checked_for_lost_wakeups": tot("tx_snapshots_checked_for_lost_wakeups"),
+        "spin_polls_that_found_the_ring_full": tot("spin_polls_that_found_the_ring_full"),
+        "spin_room_after_full_events_checked_for_a_wakeup": tot("spin_room_after_full_events"),
+        "spin_wakeups_that_arrived_after_the_next_successful_poll": tot("spin_wakeups_confirmed_late"),
+        "lost_wakeups": tot("lost_wakeups"),
         "max_worker_threads_seen_by_readers": max([int(r.get("worker_threads_seen_by_readers", 0)) for r in runs] or [0]),
         "verdicts": sorted({str(r.get("verdict")) for r in runs}),
-        "args": cfg["args"],
+        "groups": [dict(kind=k, runs=n, workload=lab, args=a) for (k, n, lab, a) in groups],
     }
-    log(f"[{pid} {tier}] mtstress: {ev['plain_runs']} plain + {ev['tsan_runs']} tsan runs, "
+    log(f"[{pid} {tier}] mtstress: {ev['plain_runs']} plain + {ev['tsan_runs']} tsan runs {ev['runs_by_workload']}, "
         f"{ev['bytes_read_and_checked']} bytes checked across real threads, tsan_reports={ev['tsan_reports']}, verdicts={ev['verdicts']}")
     return viol, ev
 
